@@ -146,24 +146,29 @@ def check_args(rep, proj):
         rep.undecided("C18.args", conv_fx.site, conv_fx.fq, "args= of the TMC RSL is not a list literal")
     else:
         n_tmc = 0
+        # the kernels that can reach the RSL built in _convolve_FX: every compiled function of the module that is passed around as a
+        # value (argument, table entry, ...), however the hand-over is spelled
+        called = {id(n.func) for n in ast.walk(tmc.tree) if isinstance(n, ast.Call)}
+        passed = {}
         for n in ast.walk(tmc.tree):
-            if isinstance(n, ast.Call) and isinstance(n.func, ast.Attribute) and n.func.attr == "_convolve_FX" and len(n.args) >= 2:
-                r = proj.resolve_expr(tmc, n.args[1], proj.enclosing_function(n))
-                construct = f"{conv_fx.fq}<-{ast.unparse(n.args[1])}"
-                if r is None or r[0] != "func":
-                    rep.undecided("C18.args", f"{tmc.relpath}:{n.lineno}", construct, "kernel argument not resolved")
-                    continue
-                d = flow.arg_demand(proj, r[1], 1, memo)
-                n_tmc += 1
-                n_parts += 1
-                roles_ok = all(role in ("xi",) for rs in d.roles.values() for role in rs)
-                if d.n > site_supply:
-                    rep.bad("C18.args", f"{tmc.relpath}:{n.lineno}", construct, f"TMC kernel demands {d.n} values, RSL supplies {sup_txt}")
-                elif not roles_ok or (d.roles and "xi" not in sup_txt):
-                    rep.bad("C18.args", f"{tmc.relpath}:{n.lineno}", construct, f"TMC kernel reads args[0] as {d.roles} but the RSL supplies {sup_txt}")
-                else:
-                    rep.ok("C18.args", f"{tmc.relpath}:{n.lineno}", construct, f"demand {d.n} <= supply {site_supply} ({sup_txt})")
-        rep.floor("TMC kernel call sites", n_tmc, 4)
+            if isinstance(n, ast.Name) and isinstance(n.ctx, ast.Load) and id(n) not in called:
+                f_ = tmc.functions.get(n.id)
+                if f_ is not None and f_.is_njit:
+                    passed.setdefault(n.id, n)
+        for name, n in sorted(passed.items()):
+            f_ = tmc.functions[name]
+            construct = f"{conv_fx.fq}<-{name}"
+            d = flow.arg_demand(proj, f_, 1, memo)
+            n_tmc += 1
+            n_parts += 1
+            roles_ok = all(role in ("xi",) for rs in d.roles.values() for role in rs)
+            if d.n > site_supply:
+                rep.bad("C18.args", f"{tmc.relpath}:{n.lineno}", construct, f"TMC kernel demands {d.n} values, RSL supplies {sup_txt}")
+            elif not roles_ok or (d.roles and "xi" not in sup_txt):
+                rep.bad("C18.args", f"{tmc.relpath}:{n.lineno}", construct, f"TMC kernel reads args[0] as {d.roles} but the RSL supplies {sup_txt}")
+            else:
+                rep.ok("C18.args", f"{tmc.relpath}:{n.lineno}", construct, f"demand {d.n} <= supply {site_supply} ({sup_txt})")
+        rep.floor("TMC kernels handed to _convolve_FX", n_tmc, 3)
     rep.info["rsl_parts_checked"] = n_parts
     rep.info["kernels_with_nonzero_demand"] = n_demanding
     rep.floor("RSL parts with a kernel", n_parts, 230)
@@ -541,6 +546,40 @@ class TypeInfer:
         return "f8"
 
 
+def check_python_callers(rep, proj):
+    """Interpreted code that calls a compiled kernel directly (closures of the channel classes do): an argument that only the
+    interpreter accepts - None, a list / tuple / number / string literal where the declared signature has an array - makes the eager
+    dispatcher raise TypeError when compilation is on, while the interpreted kernel (which may never read it) runs fine."""
+    n = 0
+    for m in proj.modules.values():
+        for node in ast.walk(m.tree):
+            if not isinstance(node, ast.Call):
+                continue
+            caller = proj.enclosing_function(node)
+            if caller is not None and caller.is_njit:
+                continue  # kernel-to-kernel calls are typed by check_types
+            r = proj.resolve_expr(m, node.func, caller)
+            if r is None or r[0] != "func" or not r[1].is_njit:
+                continue
+            ret, params = parse_sig(r[1].njit_sig)
+            if not params:
+                continue
+            n += 1
+            problems = []
+            for a, pt in zip(node.args, params):
+                if not pt.endswith("[:]"):
+                    if isinstance(a, ast.Constant) and (a.value is None or isinstance(a.value, str)):
+                        problems.append(f"{ast.unparse(a)} passed for the {pt} parameter")
+                    continue
+                if isinstance(a, ast.Constant) or isinstance(a, (ast.List, ast.Tuple, ast.Dict, ast.Set, ast.ListComp)):
+                    problems.append(f"{ast.unparse(a)[:30]} passed where the signature '{r[1].njit_sig}' declares an array ({pt})")
+            site = f"{m.relpath}:{node.lineno}"
+            construct = f"{caller.fq if caller else m.name}->{r[1].fq}"
+            rep.check(not problems, "C18.callers", site, construct, f"arguments compatible with '{r[1].njit_sig}'",
+                      "; ".join(problems) + ": the compiled dispatcher rejects it (TypeError: no matching definition), the interpreter does not", key=f"{site}")
+    rep.floor("direct Python -> kernel call sites", n, 20)
+
+
 def check_types(rep, proj, kernels):
     for f in kernels:
         ret, params = parse_sig(f.njit_sig)
@@ -601,3 +640,4 @@ def run(rep, proj, tier):
     check_args(rep, proj)
     kernels = check_closed_and_frozen(rep, proj)
     check_types(rep, proj, kernels)
+    check_python_callers(rep, proj)
